@@ -187,6 +187,49 @@ def judge(rec, label, design, nontrivial, case):
         refsem.ELEM_SEP = "_"
 
 
+def upcase(design):
+    """The same design with every module-local instance, internal signal and internal bundle-instance name in upper case (so that
+    the names the elaborator invents from them contain upper-case letters)."""
+    d = copy.deepcopy(design)
+    for m in d["modules"]:
+        smap = {s[0]: s[0].upper() for s in m["sigs"]}
+        bmap = {b[0]: b[0].upper() for b in m.get("buns", [])}
+        imap = {i["name"]: i["name"].upper() for i in m["insts"]}
+        taken = {p[0] for p in m["ports"]} | {b[0] for b in m.get("bports", [])}
+        if (set(smap.values()) | set(bmap.values()) | set(imap.values())) & taken or \
+                len(set(smap.values()) | set(bmap.values()) | set(imap.values())) != len(smap) + len(bmap) + len(imap):
+            continue  # (would create a clash of its own)
+
+        def rw(e):
+            k = e[0]
+            if k == "sig":
+                return ["sig", smap.get(e[1], e[1])]
+            if k == "bun":
+                return ["bun", bmap.get(e[1], e[1])] + e[2:]
+            if k == "bref":
+                return ["bref", bmap.get(e[1], e[1])] + e[2:]
+            if k == "pref":
+                return ["pref", imap.get(e[1], e[1])] + e[2:]
+            if k == "slice":
+                return ["slice", rw(e[1])] + e[2:]
+            if k == "cat":
+                return ["cat"] + [rw(x) for x in e[1:]]
+            if k == "anon":
+                return ["anon", {kk: rw(v) for kk, v in e[1].items()}] + e[2:]
+            return e
+
+        for s_ in m["sigs"]:
+            s_[0] = smap[s_[0]]
+        for b in m.get("buns", []):
+            b[0] = bmap[b[0]]
+        for i in m["insts"]:
+            i["name"] = imap[i["name"]]
+            i["conns"] = {p: rw(e) for p, e in i["conns"].items()}
+        if m.get("order"):
+            m["order"] = [smap.get(x, bmap.get(x, imap.get(x, x))) for x in m["order"]]
+    return d
+
+
 def run(ctx, rec):
     passmon.attach(rec)
     rng = ctx.rng("c05")
@@ -198,6 +241,7 @@ def run(ctx, rec):
         bases = bases[ctx.shard:: ctx.nshards]
     per_base = 8 if ctx.quick else 30
     kinds = ["sig", "inst", "nc", "bun", "rename", "port"]
+    bases = [(l + " (upper-case names)", upcase(d)) if k % 3 == 1 else (l, d) for k, (l, d) in enumerate(bases)]
     for label, base in bases:
         # the unrenamed base under M-name (clashes among invented names themselves)
         judge(rec, label + " [base]", base, False, {"kind": "base", "label": label, "design": base})
